@@ -35,8 +35,9 @@ pub fn write_source(source: &str, out_path: &Path) -> Result<usize, String> {
         .truncate(true)
         .open(out_path)
         .map_err(|e| format!("{}: {}", e, out_path.display()))?
-        .write(source.as_ref())
-        .map_err(|e| format!("{}: {}", e, out_path.display()))
+        .write_all(source.as_ref())
+        .map_err(|e| format!("{}: {}", e, out_path.display()))?;
+    Ok(source.len())
 }
 
 /// Get all `*.mamba` files paths relative to given path.
